@@ -98,6 +98,9 @@ class Sim:
             elif st['state'] == 'draining':
                 if all(v['state'] == 'done' for k, v in self.threads.items() if k != n):
                     r.append(n)
+            elif st['state'] == 'sleeping' and st['waiting_for'] is None:
+                if self.decisions >= st.get('wake_at', 0):
+                    r.append(n)          # a plain sleep (simulated time = scheduler decisions)
             elif st['state'] in ('joining', 'sleeping'):
                 tgt = self.threads.get(st['waiting_for'])
                 obj = self.objs.get(st['waiting_for'])
@@ -400,7 +403,97 @@ def install_thread_seam(scared):
         return orig_join(self, *args, **kw)
 
     K.start, K.run, K.join = start, run, join
+    _install_generic_seams(scared)
     return True
+
+
+SIM_TICK = 0.002          # simulated seconds per scheduler decision (for code that reads a clock or sleeps)
+
+
+def _joinable(sim, label):
+    tgt = sim.threads.get(label)
+    obj = sim.objs.get(label)
+    lk = getattr(obj, '_tstate_lock', None)
+    return tgt is None or tgt['state'] == 'done' or (tgt['state'] != 'unstarted' and (lk is None or not lk.locked()))
+
+
+def _install_generic_seams(scared):
+    """For refactorings that do not go through TTestThreadAccumulator.join: threading.Thread.join called directly (super().join(timeout) in a
+    helper), and a time module imported by scared.ttest / scared.container (deadlines, sleeps).  Inactive outside a simulated thread."""
+    if getattr(threading.Thread.join, '_sim_aware', False):
+        return
+    orig_thread_join = threading.Thread.join
+
+    def thread_join(self, timeout=None):
+        sim = SIM
+        name = tname()
+        label = getattr(self, '_sim_label', None)
+        if sim is None or name is None or label is None or label not in sim.threads or sim.aborted or _joinable(sim, label):
+            return orig_thread_join(self, timeout)
+        st = sim.threads[name]
+        if st['state'] != 'runnable':
+            return orig_thread_join(self, timeout)          # already inside a modelled wait (the class-level join wrapper)
+        st['state'] = 'joining' if timeout is None else 'sleeping'
+        st['waiting_for'] = label
+        if timeout is not None:
+            st['wake_at'] = sim.decisions + max(1, int(float(timeout) / SIM_TICK))
+        sim.ev('thread-join', name, label, None if timeout is None else round(float(timeout), 4))
+        try:
+            sim.block_until_runnable(name)
+            sim.settle()
+        finally:
+            st['state'] = 'runnable'
+            st['waiting_for'] = None
+        return orig_thread_join(self, None if timeout is None else 0)
+    thread_join._sim_aware = True
+    threading.Thread.join = thread_join
+
+    class SimTime:
+        def __init__(self, real):
+            self._real = real
+
+        def __getattr__(self, k):
+            return getattr(self._real, k)
+
+        def _now(self):
+            sim = SIM
+            if sim is not None and tname() is not None:
+                return 1000.0 + sim.decisions * SIM_TICK
+            return None
+
+        def monotonic(self):
+            v = self._now()
+            return self._real.monotonic() if v is None else v
+
+        def time(self):
+            v = self._now()
+            return self._real.time() if v is None else v
+
+        def perf_counter(self):
+            v = self._now()
+            return self._real.perf_counter() if v is None else v
+
+        def sleep(self, d):
+            sim = SIM
+            name = tname()
+            if sim is None or name is None or sim.aborted:
+                return self._real.sleep(d)
+            st = sim.threads[name]
+            st['state'] = 'sleeping'
+            st['waiting_for'] = None
+            st['wake_at'] = sim.decisions + max(1, int(float(d) / SIM_TICK))
+            sim.ev('sleep', name, round(float(d), 4))
+            try:
+                sim.block_until_runnable(name)
+            finally:
+                st['state'] = 'runnable'
+    for modname in ('scared.ttest', 'scared.container'):
+        mod = sys.modules.get(modname)
+        if mod is None:
+            continue
+        for attr, val in list(vars(mod).items()):
+            if val is _time:
+                setattr(mod, attr, SimTime(_time))
 
 
 # ----------------------------------------------------------------------------- callbacks
